@@ -14,11 +14,24 @@
            read_shared_strings   src/xlsx/mod.rs            sst_run / read_shared_strings
            next_cell inner loop, read_value, read_v (text types)
                                  src/xlsx/cells_reader.rs   cc_step / cc_run / read_cell
+           next_formula inner loop, read_formula (plain formulas)
+                                 src/xlsx/cells_reader.rs   fc_step / fc_run / read_fcell
      ods   get_datatype (attribute loop + content loop) and the read_to_end_into of read_row
                                  src/ods.rs                 ods_attrs / od_step / ods_cell
    S (spec): item_text, tc_text, content_text — the text an element denotes per ECMA-376 /
      ODF 1.2.   E (encoders): item_events, sst_events, cell_events, content_events, with the
      storage-form choices as their arguments; legal_* predicates; known_* classes.
+   Source state: /repo at db4dbf4 (CDATA sections are text in <t>/<v>/<f>/text:p; read_string
+   compares its end tag by qualified name).
+
+   THREE SWITCHES.  The three behaviours of the current code that still deviate from S are each
+   ONE definition, used by the models below and by the known_* predicates:
+       xstring_decode_on_read   what read_string / read_v do to the accumulated characters of a
+                                <t> / <v t="str">   (now: nothing;  after a fix of F37: xunescape)
+       ods_tab_text             what <text:tab/> appends        (now: [];  after a fix of F35: [9])
+       ods_break_text           what <text:line-break/> appends (now: [];  after a fix of F36: [10])
+   known_* compare these with S, so a class disappears by itself when its switch is flipped;
+   notes/C19.md lists the lines to touch.
    Definitions only (executable); proofs are in XmlText_proofs.v. *)
 From Calamine Require Import Prelude.
 From Coq Require Strings.String Strings.Ascii.
@@ -152,6 +165,49 @@ Arguments Fail {S R} e.
 Arguments Boom {S R}.
 
 (* ====================================================================================== *)
+(*                 ECMA-376 ST_Xstring (part of S) and the three switches                  *)
+(* ====================================================================================== *)
+(* ST_Xstring (ECMA-376 Part 1, 22.9.2.19): _xHHHH_ stands for the character with that code
+   (that is how Excel stores CR and the characters XML 1.0 cannot carry; a literal "_x" is
+   written _x005F_x).  One left-to-right pass; decoded characters are not examined again.  An
+   escape naming a surrogate code unit (D800-DFFF) does not denote a character and stays as
+   written (a Rust String could not hold it either). *)
+Definition hexval (c : N) : option N :=
+  if (48 <=? c) && (c <=? 57) then Some (c - 48)
+  else if (65 <=? c) && (c <=? 70) then Some (c - 55)
+  else if (97 <=? c) && (c <=? 102) then Some (c - 87)
+  else None.
+Definition is_surrogate (c : N) : bool := (55296 <=? c) && (c <=? 57343).
+Fixpoint xunescape (s : str) : str :=
+  match s with
+  | [] => []
+  | c :: s' =>
+    match s' with
+    | x :: h1 :: h2 :: h3 :: h4 :: u :: r =>
+      if (c =? 95) && (x =? 120) && (u =? 95) then
+        match hexval h1, hexval h2, hexval h3, hexval h4 with
+        | Some a, Some b, Some d, Some e =>
+          let v := a * 4096 + b * 256 + d * 16 + e in
+          if is_surrogate v then c :: xunescape s' else v :: xunescape r
+        | _, _, _, _ => c :: xunescape s'
+        end
+      else c :: xunescape s'
+    | _ => c :: xunescape s'
+    end
+  end.
+
+(* SWITCH F37.  What the readers do to the accumulated characters of one <t> (read_string) and
+   of the <v> of a t="str" cell (read_v).  Current code: nothing.  With the proposed fix:
+   [xunescape s]. *)
+Definition xstring_decode_on_read (s : str) : str := s.
+
+(* SWITCH F35 / F36.  What ods get_datatype appends for <text:tab/> and <text:line-break/>.
+   Current code: no arm for them (they fall into `_ => ()`), i.e. nothing.  With the proposed
+   fixes: [9] and [10]. *)
+Definition ods_tab_text : str := [].
+Definition ods_break_text : str := [].
+
+(* ====================================================================================== *)
 (*                                xlsx  read_string                                        *)
 (* ====================================================================================== *)
 Inductive rs_state : Type :=
@@ -171,24 +227,25 @@ Definition rs_step (closing : str) (st : rs_state) (e : event) : step_res rs_sta
       else if str_eqb l n_t && negb phon then Cont (RsInT rich n [])
       else Cont st
     | End n =>
-      let l := local_name n in
-      (* the end tag's LOCAL name is compared with the start tag's QUALIFIED name *)
-      if str_eqb l closing then Ret rich
-      else if str_eqb l n_rPh then Cont (RsOuter rich false)
+      (* e.name() == closing: qualified name against the start tag's qualified name (7dba6c7) *)
+      if str_eqb n closing then Ret rich
+      else if str_eqb (local_name n) n_rPh then Cont (RsOuter rich false)
       else Cont st
     | _ => Cont st
     end
   | RsInT rich tname value =>
     match e with
-    | Text s => Cont (RsInT rich tname (value ++ s))          (* Event::Text only *)
+    | Text s => Cont (RsInT rich tname (value ++ s))          (* Event::Text: unescaped *)
+    | CData s => Cont (RsInT rich tname (value ++ s))         (* Event::CData: verbatim (db4dbf4) *)
     | End n =>
       if str_eqb n tname then
+        let value' := xstring_decode_on_read value in           (* switch F37: identity today *)
         match rich with
-        | Some b => Cont (RsOuter (Some (b ++ value)) false)
-        | None => Cont (RsSkip value 0)                        (* early return path *)
+        | Some b => Cont (RsOuter (Some (b ++ value')) false)
+        | None => Cont (RsSkip value' 0)                       (* early return path *)
         end
       else Cont st
-    | _ => Cont st                                              (* CData, Start, … dropped *)
+    | _ => Cont st                                              (* nested Start, comments: dropped *)
     end
   | RsSkip value depth =>
     match e with
@@ -288,7 +345,7 @@ Definition read_v (v : str) (strings : list str) (cattrs : attrs) : step_res cel
         | None => Boom
         end
       else Boom
-    else if str_eqb t v_str then Cont (CString v)
+    else if str_eqb t v_str then Cont (CString (xstring_decode_on_read v))   (* switch F37 *)
     else if str_eqb t v_b || str_eqb t v_e || str_eqb t v_d || str_eqb t v_n then Cont CNonText
     else Fail ERR_TATTR                                            (* "is" or unknown *)
   | None => Cont CNonText
@@ -323,7 +380,8 @@ Definition cc_step (strings : list str) (cattrs : attrs) (st : cc_state) (e : ev
     end
   | CcInV vname acc =>
     match e with
-    | Text s => Cont (CcInV vname (acc ++ s))                    (* Event::Text only *)
+    | Text s => Cont (CcInV vname (acc ++ s))                    (* Event::Text *)
+    | CData s => Cont (CcInV vname (acc ++ s))                   (* Event::CData (db4dbf4) *)
     | End n =>
       if str_eqb n vname then
         match read_v acc strings cattrs with
@@ -367,8 +425,8 @@ Definition read_cell (strings : list str) (cattrs : attrs) (evs : list event)
 (* The loop of next_cell over the events that follow `Start sheetData`, reduced to what matters
    for text: which <c> elements are read, with which attributes, and what value each yields
    (positions are C01's: the r attribute is returned as it stands).  A cell whose reader does not
-   stop at its own end tag (class F34) goes on consuming the following cells, exactly as the
-   real loop does.  [cur] = Some (cattrs, st) while the inner loop of a <c> is running. *)
+   stop at its own end tag (irregular nesting) goes on consuming the following cells, exactly as
+   the real loop does.  [cur] = Some (cattrs, st) while the inner loop of a <c> is running. *)
 Fixpoint sheet_run (strings : list str) (cur : option (attrs * cc_state))
          (racc : list (attrs * cellval)) (evs : list event) : outcome (list (attrs * cellval)) :=
   match evs with
@@ -395,6 +453,101 @@ Fixpoint sheet_run (strings : list str) (cur : option (attrs * cc_state))
   end.
 Definition read_sheet_cells (strings : list str) (evs : list event)
   : outcome (list (attrs * cellval)) := sheet_run strings None [] evs.
+
+(* ====================================================================================== *)
+(*               xlsx  formula text: next_formula inner loop, read_formula                 *)
+(* ====================================================================================== *)
+(* what worksheet_formula gets for a cell.  A <f t="shared"> hands the value to the shared
+   formula bookkeeping (SharedFmla.v, property C17): here only the marker [FvOutside]. *)
+Inductive fval : Type :=
+| FvNone                        (* no <f>: value = None -> "" *)
+| FvText (s : str)              (* Some(f) *)
+| FvOutside.                    (* decided by the shared-formula branch: outside this model *)
+
+Definition v_shared : str := [115; 104; 97; 114; 101; 100].       (* "shared" *)
+(* if let Ok(Some(b"shared")) = get_attribute(e.attributes(), QName(b"t")) *)
+Definition is_shared (a : attrs) : bool :=
+  match get_attribute a a_t with Some t => str_eqb t v_shared | None => false end.
+
+Inductive fc_state : Type :=
+| FcOuter (value : fval)                                        (* loop inside <c> *)
+| FcSkip (name : str) (shared : bool) (depth : N) (value : fval)
+                                        (* read_formula on <is>/<v>: read_to_end_into(e.name()) *)
+| FcInF (fname : str) (shared : bool) (acc : str).             (* read_formula on <f> *)
+
+Definition fc_step (st : fc_state) (e : event) : step_res fc_state fval :=
+  match st with
+  | FcOuter value =>
+    match e with
+    | Start n a =>
+      let l := local_name n in
+      if str_eqb l n_is || str_eqb l n_v then Cont (FcSkip n (is_shared a) 0 value)
+      else if str_eqb l n_f then Cont (FcInF n (is_shared a) [])
+      else Fail ERR_NODE
+    | End n => if str_eqb (local_name n) n_c then Ret value else Cont st
+    | _ => Cont st
+    end
+  | FcSkip name shared depth value =>
+    match e with
+    | Start n _ => if str_eqb n name then Cont (FcSkip name shared (depth + 1) value) else Cont st
+    | End n =>
+      if str_eqb n name then
+        if depth =? 0 then Cont (FcOuter (if shared then FvOutside else value))   (* Ok(None) *)
+        else Cont (FcSkip name shared (depth - 1) value)
+      else Cont st
+    | _ => Cont st
+    end
+  | FcInF fname shared acc =>
+    match e with
+    | Text s => Cont (FcInF fname shared (acc ++ s))
+    | CData s => Cont (FcInF fname shared (acc ++ s))            (* Event::CData (db4dbf4) *)
+    | End n =>
+      if str_eqb n fname then Cont (FcOuter (if shared then FvOutside else FvText acc))
+      else Cont st
+    | _ => Cont st
+    end
+  end.
+
+Fixpoint fc_run (st : fc_state) (evs : list event) : outcome (fval * list event) :=
+  match evs with
+  | [] => Err ERR_EOF
+  | e :: rest =>
+    match fc_step st e with
+    | Cont st' => fc_run st' rest
+    | Ret r => Ok (r, rest)
+    | Fail c => Err c
+    | Boom => Panic
+    end
+  end.
+Definition read_fcell (evs : list event) : outcome (fval * list event) := fc_run (FcOuter FvNone) evs.
+
+(* the loop of next_formula over the events that follow `Start sheetData` *)
+Fixpoint fsheet_run (cur : option (attrs * fc_state)) (racc : list (attrs * fval))
+         (evs : list event) : outcome (list (attrs * fval)) :=
+  match evs with
+  | [] => Err ERR_EOF
+  | e :: rest =>
+    match cur with
+    | Some (ca, st) =>
+      match fc_step st e with
+      | Cont st' => fsheet_run (Some (ca, st')) racc rest
+      | Ret v => fsheet_run None ((ca, v) :: racc) rest
+      | Fail c => Err c
+      | Boom => Panic
+      end
+    | None =>
+      match e with
+      | Start n a =>
+        if str_eqb (local_name n) n_c then fsheet_run (Some (a, FcOuter FvNone)) racc rest
+        else fsheet_run None racc rest
+      | End n =>
+        if str_eqb (local_name n) n_sheetData then Ok (rev racc) else fsheet_run None racc rest
+      | _ => fsheet_run None racc rest
+      end
+    end
+  end.
+Definition read_sheet_formulas (evs : list event) : outcome (list (attrs * fval)) :=
+  fsheet_run None [] evs.
 
 (* ====================================================================================== *)
 (*                                  ods  get_datatype                                      *)
@@ -462,6 +615,7 @@ Definition od_step (cname : str) (val : odsval) (st : od_state) (e : event)
   | OdMain s first =>
     match e with
     | Text t => Cont (OdMain (s ++ t) first)
+    | CData t => Cont (OdMain (s ++ t) first)                     (* Event::CData (db4dbf4) *)
     | End n =>
       if str_eqb n o_cell || str_eqb n o_covered then Ret (OString s) else Cont st
     | Start n a =>
@@ -477,6 +631,9 @@ Definition od_step (cname : str) (val : odsval) (st : od_state) (e : event)
           end
         | None => Cont (OdMain (s ++ [SPACE]) first)
         end
+      (* no arm for the next two in the current code (`_ => ()`): both switches are [] today *)
+      else if str_eqb n o_tab then Cont (OdMain (s ++ ods_tab_text) first)        (* switch F35 *)
+      else if str_eqb n o_break then Cont (OdMain (s ++ ods_break_text) first)    (* switch F36 *)
       else Cont st
     | _ => Cont st
     end
@@ -534,38 +691,13 @@ Definition tc_events (tc : tcontent) : list event :=
 Definition tc_raw (tc : tcontent) : str :=
   flat_map (fun c => match c with TcText s => s | TcCData s => s | TcOther => [] end) tc.
 
-(* ECMA-376 ST_Xstring: _xHHHH_ stands for the character with that code (that is how Excel
-   stores CR and the characters XML 1.0 cannot carry; a literal "_x" is written _x005F_x).
-   One left-to-right pass; decoded characters are not examined again. *)
-Definition hexval (c : N) : option N :=
-  if (48 <=? c) && (c <=? 57) then Some (c - 48)
-  else if (65 <=? c) && (c <=? 70) then Some (c - 55)
-  else if (97 <=? c) && (c <=? 102) then Some (c - 87)
-  else None.
-Fixpoint xunescape (s : str) : str :=
-  match s with
-  | [] => []
-  | c :: s' =>
-    match s' with
-    | x :: h1 :: h2 :: h3 :: h4 :: u :: r =>
-      if (c =? 95) && (x =? 120) && (u =? 95) then
-        match hexval h1, hexval h2, hexval h3, hexval h4 with
-        | Some a, Some b, Some d, Some e => (a * 4096 + b * 256 + d * 16 + e) :: xunescape r
-        | _, _, _, _ => c :: xunescape s'
-        end
-      else c :: xunescape s'
-    | _ => c :: xunescape s'
-    end
-  end.
-
-(* S: what the content denotes *)
+(* S: what the content denotes: the characters, then the ST_Xstring layer *)
 Definition tc_text (tc : tcontent) : str := xunescape (tc_raw tc).
-Definition tc_has_cdata (tc : tcontent) : bool :=
-  existsb (fun c => match c with TcCData (_ :: _) => true | _ => false end) tc.
-Definition tc_has_xesc (tc : tcontent) : bool :=
-  negb (str_eqb (xunescape (tc_raw tc)) (tc_raw tc)).
-(* content on which the reader deviates, and the class it belongs to *)
-Definition tc_bad (tc : tcontent) : bool := tc_has_cdata tc || tc_has_xesc tc.
+(* M: what the readers keep of it (proved in XmlText_proofs.v): every chunk, Text or CDATA,
+   then whatever the code does about ST_Xstring *)
+Definition tc_mtext (tc : tcontent) : str := xstring_decode_on_read (tc_raw tc).
+(* content on which the reader deviates from S: exactly class F37 *)
+Definition tc_bad (tc : tcontent) : bool := negb (str_eqb (tc_mtext tc) (tc_text tc)).
 
 Definition elt (pfx l : str) (a : attrs) (body : list event) : list event :=
   Start (qn pfx l) a :: body ++ [End (qn pfx l)].
@@ -639,29 +771,18 @@ Definition legal_form (f : item_form) : bool :=
   | FRich ps => forallb legal_piece ps
   end.
 
-(* known classes *)
-Definition K_F12 : N := 12.    (* CDATA content is dropped *)
-Definition K_F34 : N := 34.    (* prefixed item without a plain <t>: the end tag never matches *)
+(* known classes (F12 CDATA and F34 prefixed rich items were repaired by db4dbf4 / 7dba6c7) *)
 Definition K_F35 : N := 35.    (* ods <text:tab/> contributes nothing *)
 Definition K_F36 : N := 36.    (* ods <text:line-break/> contributes nothing *)
 Definition K_F37 : N := 37.    (* xlsx _xHHHH_ escapes (ST_Xstring) are not decoded *)
-Definition tc_class (tc : tcontent) : N := if tc_has_cdata tc then K_F12 else K_F37.
 
 Definition piece_bad (p : piece) : bool :=
   match p with PRun _ _ tc => tc_bad tc | _ => false end.
-Definition piece_class (p : piece) : N :=
-  match p with PRun _ _ tc => tc_class tc | _ => K_F12 end.
 
-Definition known_item (pfx : str) (f : item_form) : option N :=
+Definition known_item (f : item_form) : option N :=
   match f with
-  | FPlain _ tc _ => if tc_bad tc then Some (tc_class tc) else None
-  | FRich ps =>
-    match pfx with
-    | _ :: _ => Some K_F34
-    | [] => if existsb piece_bad ps
-            then Some (match find piece_bad ps with Some p => piece_class p | None => K_F12 end)
-            else None
-    end
+  | FPlain _ tc _ => if tc_bad tc then Some K_F37 else None
+  | FRich ps => if existsb piece_bad ps then Some K_F37 else None
   end.
 
 (* the shared-string part: declaration, <sst>, per item optional white space and <si>…</si> *)
@@ -671,8 +792,8 @@ Definition sst_events (pfx : str) (sattrs : attrs) (items : list (str * item_for
   Other :: Start (qn pfx n_sst) sattrs ::
   flat_map (fun it => Text (fst it) :: si_elt pfx (snd it)) items ++ [End (qn pfx n_sst)].
 
-Definition known_items (pfx : str) (items : list (str * item_form)) : option N :=
-  fold_right (fun it acc => match known_item pfx (snd it) with Some k => Some k | None => acc end)
+Definition known_items (items : list (str * item_form)) : option N :=
+  fold_right (fun it acc => match known_item (snd it) with Some k => Some k | None => acc end)
              None items.
 
 (* storage forms of a string cell *)
@@ -730,30 +851,30 @@ Definition legal_store (st : store) : bool :=
   | StFormula _ _ => true
   end.
 
-Definition known_store (pfx : str) (st : store) : option N :=
+Definition known_store (st : store) : option N :=
   match st with
   | StShared _ => None
-  | StInline f => known_item pfx f
-  | StFormula _ vtc => if tc_bad vtc then Some (tc_class vtc) else None
+  | StInline f => known_item f
+  | StFormula _ vtc => if tc_bad vtc then Some K_F37 else None
   end.
 
-(* F34 on any item makes the whole part unreadable; F12 only spoils the item that has it *)
-Definition item_has_f34 (pfx : str) (f : item_form) : bool :=
-  match f, pfx with
-  | FRich _, _ :: _ => true
-  | _, _ => false
+(* a class-F37 item only spoils the cells that point at it *)
+Definition known_xlsx (items : list (str * item_form)) (st : store) : option N :=
+  match st with
+  | StShared v =>
+    match parse_usize v with
+    | Some i => match nth_N items i with Some it => known_item (snd it) | None => None end
+    | None => None
+    end
+  | _ => known_store st
   end.
-Definition known_xlsx (pfx : str) (items : list (str * item_form)) (st : store) : option N :=
-  if existsb (fun it => item_has_f34 pfx (snd it)) items then Some K_F34
-  else
-    match st with
-    | StShared v =>
-      match parse_usize v with
-      | Some i => match nth_N items i with Some it => known_item pfx (snd it) | None => None end
-      | None => None
-      end
-    | _ => known_store pfx st
-    end.
+
+(* S for worksheet_formula: the characters of <f> (Text and CDATA chunks) *)
+Definition formula_expected (st : store) : fval :=
+  match st with
+  | StFormula ftc _ => FvText (tc_raw ftc)
+  | _ => FvNone
+  end.
 
 (* cutting a string into runs at arbitrary points *)
 Fixpoint chop (cuts : list nat) (s : str) : list str :=
@@ -838,11 +959,18 @@ Definition legal_citem (c : citem) : bool :=
   end.
 Definition legal_content (cs : list citem) : bool := forallb legal_citem cs.
 
+(* M: what the content loop keeps of a piece (proved in XmlText_proofs.v) *)
+Definition opiece_mtext (p : opiece) : str :=
+  match p with
+  | OTab => ods_tab_text
+  | OBreak => ods_break_text
+  | _ => opiece_text p
+  end.
+(* the classes are where the switches differ from S *)
 Definition known_opiece (p : opiece) : option N :=
   match p with
-  | OCD (_ :: _) => Some K_F12
-  | OTab => Some K_F35
-  | OBreak => Some K_F36
+  | OTab => if str_eqb ods_tab_text [9] then None else Some K_F35
+  | OBreak => if str_eqb ods_break_text [10] then None else Some K_F36
   | _ => None
   end.
 Definition known_para (ps : list opiece) : option N :=
